@@ -36,10 +36,14 @@ struct knode {
 struct verif_in_t {
 	int	shape;
 	int	op;
+	int	rev;		/* node allocation order: descendants at higher (0) or lower (1) addresses */
 } verif_in;
 
 static struct knode		v_pool[MAXN], v_new;
-static int			v_used;
+static int			v_used, v_rev;
+/* the i-th allocated node: the pool is filled upwards or downwards, so that code which
+ * (wrongly) compares node addresses is exercised with both orders */
+#define NODE(i)	(v_rev ? &v_pool[MAXN - 1 - (i)] : &v_pool[i])
 static struct iv_avl_tree	v_tree;
 
 static int cmp(const struct iv_avl_node *a, const struct iv_avl_node *b)
@@ -68,7 +72,7 @@ static struct iv_avl_node *build(int h, int idx, struct iv_avl_node *parent)
 
 	if (h == 0)
 		return NULL;
-	k = &v_pool[v_used++];
+	k = NODE(v_used); v_used++;
 	k->an.parent = parent;
 	k->an.height = h;
 	a = nshapes(h - 1) * nshapes(h - 1);
@@ -148,11 +152,12 @@ static void check_tree(const int *exp, int n)
 	check_traversal(exp, n);
 }
 
-static void one_case(int shape, int op)
+static void one_case(int shape, int op, int rev)
 {
 	int n, i, j, exp[MAXN + 1];
 	struct knode snap[MAXN];
 
+	v_rev = rev;
 	v_used = 0;
 	g_next_key = 0;
 	v_tree.compare = cmp;
@@ -181,13 +186,13 @@ static void one_case(int shape, int op)
 		int k = op - n, r;
 
 		for (i = 0; i < n; i++)
-			snap[i] = v_pool[i];
+			snap[i] = *NODE(i);
 		v_new.key = 2 * k;
 		r = iv_avl_tree_insert(&v_tree, &v_new.an);
 		__CPROVER_assert(r == -1, "[C16] inserting a key that is already present fails");
 		for (i = 0; i < n; i++)
-			__CPROVER_assert(snap[i].an.left == v_pool[i].an.left && snap[i].an.right == v_pool[i].an.right &&
-					 snap[i].an.parent == v_pool[i].an.parent && snap[i].an.height == v_pool[i].an.height,
+			__CPROVER_assert(snap[i].an.left == NODE(i)->an.left && snap[i].an.right == NODE(i)->an.right &&
+					 snap[i].an.parent == NODE(i)->an.parent && snap[i].an.height == NODE(i)->an.height,
 					 "[C16] a failed insert changes nothing");
 		for (i = 1; i <= n; i++)
 			exp[i - 1] = 2 * i;
@@ -197,12 +202,12 @@ static void one_case(int shape, int op)
 		int k = op - 2 * n - 1, r;
 
 		for (i = 0; i < n; i++)
-			snap[i] = v_pool[i];
-		r = iv_avl_tree_insert(&v_tree, &v_pool[k].an);
+			snap[i] = *NODE(i);
+		r = iv_avl_tree_insert(&v_tree, &NODE(k)->an);
 		__CPROVER_assert(r == -1, "[C16] inserting a node whose key is already present fails (the node itself included)");
 		for (i = 0; i < n; i++)
-			__CPROVER_assert(snap[i].an.left == v_pool[i].an.left && snap[i].an.right == v_pool[i].an.right &&
-					 snap[i].an.parent == v_pool[i].an.parent && snap[i].an.height == v_pool[i].an.height,
+			__CPROVER_assert(snap[i].an.left == NODE(i)->an.left && snap[i].an.right == NODE(i)->an.right &&
+					 snap[i].an.parent == NODE(i)->an.parent && snap[i].an.height == NODE(i)->an.height,
 					 "[C16] a failed insert changes nothing, also when the node passed in is the one in the tree");
 		for (i = 1; i <= n; i++)
 			exp[i - 1] = 2 * i;
@@ -211,8 +216,8 @@ static void one_case(int shape, int op)
 		/* delete pool node k */
 		int k = op - 3 * n - 1, dk;
 
-		dk = v_pool[k].key;
-		iv_avl_tree_delete(&v_tree, &v_pool[k].an);
+		dk = NODE(k)->key;
+		iv_avl_tree_delete(&v_tree, &NODE(k)->an);
 		j = 0;
 		for (i = 1; i <= n; i++)
 			if (2 * i != dk)
@@ -231,8 +236,12 @@ void h_avl_tree(void)
 		if (verif_in.shape != s)
 			continue;
 		for (op = 0; op <= 4 * ((1 << SH_H) - 1); op++) {
-			if (verif_in.op == op)
-				one_case(s, op);
+			if (verif_in.op == op) {
+				if (verif_in.rev == 0)
+					one_case(s, op, 0);
+				else if (verif_in.rev == 1)
+					one_case(s, op, 1);
+			}
 		}
 	}
 	CANARY();
